@@ -351,7 +351,7 @@ Proof.
   - now destruct ack.
 Qed.
 Lemma oev_eqb_refl e : oev_eqb e e = true.
-Proof. destruct e; simpl; rewrite ?N.eqb_refl; reflexivity. Qed.
+Proof. destruct e; simpl; rewrite ?N.eqb_refl, ?ctx_eqb_refl; reflexivity. Qed.
 
 Theorem c08_model_accepted ops : c08_monitor ops (run rinit ops) = true.
 Proof.
@@ -476,27 +476,17 @@ Qed.
 
 (** ** context values *)
 Lemma overlay_fresh h : overlay cx0 h = ctx_of h.
-Proof. unfold overlay, ctx_of, ov. simpl. repeat match goal with |- context [N.eqb ?x 0] => destruct (N.eqb_spec x 0) as [->|] end; reflexivity. Qed.
-
-Lemma overlay_fields c h :
-  (h_name h <> 0%N -> c_handler (overlay c h) = h_name h)
-  /\ (c_pubname (overlay c h) = if N.eqb (pub_ty (h_pub h)) 0 then c_pubname c else pub_ty (h_pub h))
-  /\ (h_subty h <> 0%N -> c_subname (overlay c h) = h_subty h)
-  /\ (h_subtopic h <> 0%N -> c_subtopic (overlay c h) = h_subtopic h)
-  /\ (h_pubtopic h <> 0%N -> c_pubtopic (overlay c h) = h_pubtopic h)
-  /\ (h_name h = 0%N -> c_handler (overlay c h) = c_handler c)
-  /\ (h_subty h = 0%N -> c_subname (overlay c h) = c_subname c)
-  /\ (h_subtopic h = 0%N -> c_subtopic (overlay c h) = c_subtopic c)
-  /\ (h_pubtopic h = 0%N -> c_pubtopic (overlay c h) = c_pubtopic c).
-Proof.
-  unfold overlay, ov. simpl. repeat split; intros H; try (apply N.eqb_neq in H; now rewrite H);
-    try (now rewrite H).
-Qed.
+Proof. reflexivity. Qed.
 
 Lemma overlay_idem c h : overlay (overlay c h) h = overlay c h.
+Proof. reflexivity. Qed.
+
+(** the pinned (pre-fix) overlay agrees with the repaired one when nothing was there before or when
+    all five values of the handler are non-empty, and ONLY differs on empty values *)
+Lemma overlay_pinned_fresh h : overlay_pinned cx0 h = ctx_of h.
 Proof.
-  unfold overlay, ov. simpl. f_equal;
-    match goal with |- context [N.eqb ?x 0] => destruct (N.eqb x 0); reflexivity end.
+  unfold overlay_pinned, ctx_of, ov. simpl.
+  repeat match goal with |- context [N.eqb ?x 0] => destruct (N.eqb_spec x 0) as [->|] end; reflexivity.
 Qed.
 
 (** on produced messages: the consumed object keeps what it had, fresh objects start empty *)
@@ -528,7 +518,7 @@ Qed.
 Definition spec_order (h : hcfg) (s : started) (d : delivery) : list oev :=
   let ids := map r_id (effective (h_name h) (s_chain s)) in
   let o := chain_outcome h s d in
-  map OSub (s_subdecs s)
+  map (fun x => OSub x (ctx_of h)) (s_subdecs s)
   ++ map OEnter ids ++ [OFn] ++ match o with Panic => [] | _ => map OExit (rev ids) end
   ++ match o with
      | Ret (_ :: _) => map OPubDec (s_pubdecs s) ++ match h_pub h with PReal _ _ => [OPub] | _ => [] end
@@ -538,7 +528,7 @@ Definition spec_order (h : hcfg) (s : started) (d : delivery) : list oev :=
 Lemma spec_trace_order h s d : c09_proj (spec_trace h s d) = spec_order h s d.
 Proof.
   unfold spec_trace, spec_order. cbv zeta. rewrite !c09_proj_app.
-  rewrite (c09_proj_map _ OSub) by reflexivity. rewrite (c09_proj_map _ OEnter) by reflexivity.
+  rewrite (c09_proj_map _ (fun x => OSub x (ctx_of h))) by reflexivity. rewrite (c09_proj_map _ OEnter) by reflexivity.
   replace (c09_proj [EFn (h_fn h) (overlay (d_ctx d) h)]) with [OFn] by reflexivity.
   assert (Hex : c09_proj (exits (map r_id (effective (h_name h) (s_chain s))) (chain_outcome h s d))
                 = match chain_outcome h s d with Panic => [] | _ => map OExit (rev (map r_id (effective (h_name h) (s_chain s)))) end).
@@ -630,35 +620,18 @@ Proof.
 Qed.
 
 Lemma c08_context_values h s d :
-  fn_calls (dispatch h s d) = [(h_fn h, overlay (d_ctx d) h)]
-  /\ (forall p t outs m c, In (p, t, outs) (publish_calls (dispatch h s d)) -> In (m, c) outs ->
-        c = overlay (if N.eqb m 0 then d_ctx d else cx0) h)
-  /\ (forall c,
-        (h_name h <> 0%N -> c_handler (overlay c h) = h_name h)
-        /\ (c_pubname (overlay c h) = if N.eqb (pub_ty (h_pub h)) 0 then c_pubname c else pub_ty (h_pub h))
-        /\ (h_subty h <> 0%N -> c_subname (overlay c h) = h_subty h)
-        /\ (h_subtopic h <> 0%N -> c_subtopic (overlay c h) = h_subtopic h)
-        /\ (h_pubtopic h <> 0%N -> c_pubtopic (overlay c h) = h_pubtopic h)
-        /\ (h_name h = 0%N -> c_handler (overlay c h) = c_handler c)
-        /\ (h_subty h = 0%N -> c_subname (overlay c h) = c_subname c)
-        /\ (h_subtopic h = 0%N -> c_subtopic (overlay c h) = c_subtopic c)
-        /\ (h_pubtopic h = 0%N -> c_pubtopic (overlay c h) = c_pubtopic c)).
-Proof.
-  split; [|split].
-  - rewrite dispatch_spec. apply spec_fn_calls.
-  - intros p t outs m c. rewrite dispatch_spec. apply produced_ctx.
-  - intros c. apply overlay_fields.
-Qed.
-
-(** a message that arrives without router keys: exactly this handler's five values, inside the
-    function and on every produced message *)
-Lemma c08_context_values_fresh h s d : d_ctx d = cx0 ->
   fn_calls (dispatch h s d) = [(h_fn h, ctx_of h)]
   /\ (forall p t outs m c, In (p, t, outs) (publish_calls (dispatch h s d)) -> In (m, c) outs -> c = ctx_of h).
 Proof.
-  intros H. destruct (c08_context_values h s d) as (H1 & H2 & _). rewrite H in *. rewrite overlay_fresh in H1.
-  split; [assumption|]. intros p t outs m c Hp Hm. rewrite (H2 p t outs m c Hp Hm).
-  destruct (N.eqb m 0); apply overlay_fresh.
+  split.
+  - rewrite dispatch_spec. apply spec_fn_calls.
+  - intros p t outs m c. rewrite dispatch_spec. intros H1 H2. now rewrite (produced_ctx _ _ _ _ _ _ _ _ H1 H2).
+Qed.
+
+Lemma c08_context_pinned_refuted :
+  exists c h, overlay_pinned c h <> ctx_of h /\ c_pubtopic (overlay_pinned c h) <> h_pubtopic h.
+Proof.
+  exists (CX 10 8 7 20 30), (HC 12 1 7 21 PDisabled 0 3). split; vm_compute; discriminate.
 Qed.
 
 Lemma c09_nesting h s d :
